@@ -6,7 +6,11 @@ patch=$(realpath "$1"); shift
 V=$(mktemp -d /tmp/verif-variant-XXXXXX)
 trap 'rm -rf "$V"' EXIT
 rsync -a --exclude target --exclude .git /repo/ "$V/repo/"
-if ! (cd "$V/repo" && patch -p1 -s --no-backup-if-mismatch < "$patch" >/dev/null 2>&1); then
+rebased="$(dirname "$patch")/patch_rebased.diff"
+if [ "$(basename "$patch")" = patch.diff ] && [ -f "$rebased" ] && (cd "$V/repo" && patch -p1 -s --dry-run < "$rebased" >/dev/null 2>&1); then
+  # the same semantic change re-written against the tree with the fix: commits
+  (cd "$V/repo" && patch -p1 -s --no-backup-if-mismatch < "$rebased"); echo "REBASED (using patch_rebased.diff)"
+elif ! (cd "$V/repo" && patch -p1 -s --no-backup-if-mismatch < "$patch" >/dev/null 2>&1); then
   # seeds were written against the pinned base commit; fall back to it when a later fix: commit touches the same lines
   rm -rf "$V/repo"; mkdir -p "$V/repo"; git -C /repo archive 6219822 | tar -x -C "$V/repo"
   echo "BASE-FALLBACK (patch does not apply to the current tree; using base commit 6219822 + patch)"
